@@ -529,3 +529,5 @@ class C01(Check):
 # the composed stream (one real application, one request, against App.serve of Model/App.lean)
 from harness import applib as _applib  # noqa: E402
 _applib.install(C01, quick=(300, 120), thorough=(10000, 3000))
+from harness import intlimlib as _intlim  # noqa: E402
+_intlim.install(C01)
